@@ -62,6 +62,7 @@ pub fn body(inst: &str) {
                 must("&p * s", || &pa() * s, |r| expect_poly("&p * s", &r, &scal));
                 must("p * s", || pa() * s, |r| expect_poly("p * s", &r, &scal));
                 must("clone", || pa().clone(), |r| expect_poly("clone", &r, &a));
+                if la == 0 { must("eval of the empty polynomial", || pa().eval(x), |r| { prove_eq("the empty polynomial evaluates to zero at every point", r, z()); }); }
                 if la >= 1 {
                     // derivative orders 0 ..= degree+1
                     let mut cur = a.clone();
@@ -83,7 +84,8 @@ pub fn body(inst: &str) {
             // values of results equal the same combination of the operands' values
             let va = horner_free(&a, x);
             let vb = horner_free(&b, x);
-            let ev = |p: &Polynomial<Sym>| -> Sym { if p.size() == 0 { z() } else { p.eval(x) } };
+            // (the empty polynomial evaluates to zero: "the empty polynomial acts as zero")
+            let ev = |p: &Polynomial<Sym>| -> Sym { p.eval(x) };
             must("eval(p + q)", || ev(&(&pa() + &pb())), |r| { prove_eq("eval(p+q, x) = eval(p,x) + eval(q,x)", r, va + vb); });
             must("eval(p - q)", || ev(&(&pa() - &pb())), |r| { prove_eq("eval(p-q, x) = eval(p,x) - eval(q,x)", r, va - vb); });
             must("eval(p * q)", || ev(&(&pa() * &pb())), |r| { prove_eq("eval(p*q, x) = eval(p,x) * eval(q,x)", r, va * vb); });
@@ -91,7 +93,7 @@ pub fn body(inst: &str) {
             must("eval(-p)", || ev(&(-&pa())), |r| { prove_eq("eval(-p, x) = -eval(p,x)", r, -va); });
             if la >= 1 && lb >= 1 {
                 // linearity of the derivative and the product rule, at a symbolic point
-                let d = |p: &Polynomial<Sym>| -> Sym { let q = p.derivative(); if q.size() == 0 { z() } else { q.eval(x) } };
+                let d = |p: &Polynomial<Sym>| -> Sym { p.derivative().eval(x) };
                 must("(p+q)'", || (d(&(&pa() + &pb())), d(&pa()), d(&pb())), |(l, r1, r2)| { prove_eq("(p+q)'(x) = p'(x) + q'(x)", l, r1 + r2); });
                 must("(s p)'", || (d(&(&pa() * s)), d(&pa())), |(l, r1)| { prove_eq("(s p)'(x) = s p'(x)", l, s * r1); });
                 must("(p q)'", || (d(&(&pa() * &pb())), d(&pa()), d(&pb()), pa().eval(x), pb().eval(x)), |(l, da, db, ea, eb)| { prove_eq("(p q)'(x) = p'(x) q(x) + p(x) q'(x)", l, da * eb + ea * db); });
